@@ -64,6 +64,7 @@ import Proofs.FormatStageRangeText
 import Proofs.FormatStageRange32
 
 import Proofs.FormatPipeRangeText
+import Proofs.FormatFileRangeText
 
 namespace Props.C09
 open Martian.Format
@@ -2085,5 +2086,237 @@ theorem accepted_call_invalid_utf8_negative_zero :
   set_option maxRecDepth 100000 in decide +kernel
 
 end AcceptedCallTexts
+
+/-! ## a whole comment-free file: ACCEPTED SOURCE TEXTS  (the capstone of the text-side statements)
+
+The theorems of section WholeFile quantify over files satisfying `wfFile` (print → read → print) and
+over sources in the canonical spelling of the tokens.  This section closes the gap to
+
+  **for every source text the parser accepts, the formatter's output is accepted by the parser,
+  denotes the same program (up to the documented reordering of calls and the normal form of call
+  modifiers), and is a fixed point of the formatter**
+
+by assembling the parts: the range of the tokenizer (`range_lex`, section AcceptedTexts), of the
+expression reader (AcceptedTexts), of the readers of `filetype`, `struct`, parameter lists and
+`stage` (AcceptedDeclTexts), of `call`, `return`, `retain` and `pipeline` (AcceptedCallTexts), and
+here of `includes`, `dec_list` and `file` (`range_file_reader`: NO exception hypothesis).  The
+source may have its declarations in any order (a pipeline before the filetype it uses, a struct
+after a stage), the calls of every pipeline in any order, every token in any spelling the
+tokenizer accepts (`split using (`, keyword modifiers, `memgb`, `1e3`, `007`, duplicate map keys,
+escapes), any white space, and COMMENTS — which the model reader DROPS: the statement is about the
+program; what the real formatter does with comments (it keeps and moves them) is outside the
+model and covered by monitors only (harness/c09dangle.go, c09file.go; findings F27, F28).
+
+The FULL statement is FALSE for the code as it is — not merely unproved: each of the following is
+a recorded finding (known_findings.d/C09.json), a GENUINE exception of the real code with a
+negative witness on a small accepted FILE text below, and appears as a conjunct of the Bool
+hypothesis `fileHyps f` (model `Martian.FormatFileText`; every conjunct ranges over ALL parts of
+the file):
+
+* F6b `fileStrsValid`: a string that is not valid UTF-8 (`"\xff"`) — an `@include` path, a help
+  text or out name of a struct member or of a parameter of a stage or pipeline, the `special` value
+  or src command of a stage, a string in a binding value.  `quoteString` prints U+FFFD for the
+  byte (`accepted_file_invalid_utf8_include`).
+* F26 `fileNoNegZero`: a float leaf `-0.0` in a binding value: printed `-0`, read back as the
+  integer 0, printed `0` (`accepted_file_negative_zero_duplicate_modifier`).
+* F25 `fileMBValid`: `mem_gb` / `vmem_gb` of a stage of 2^53 GB or more: `formatGB`'s
+  `int64(gb*1024)` overflows (`accepted_file_huge_resource`).
+* F40 `fileModsDistinct`: the same modifier id twice in one `using` block of a call (the model's
+  stable sort is `sort.Slice` only for distinct ids).
+* F34 `fileCallsDistinct`: two calls with the same id in one pipeline: the output is not a fixed
+  point (`accepted_file_duplicate_call_ids`).
+
+Which reader of `mem_gb` / `vmem_gb`: `parseFile` (section WholeFile) reads the two values EXACTLY
+(`readGBTok`); the real parser rounds the literal to the nearest float32 first (F29).  BOTH are
+covered: `parseFileGH g h` (exact; `…_file_partial`, hypothesis `fileHyps`) and `parseFile32GH g h`
+= the same reader with `pStageR readGB32Tok` for every stage (`…_file32_partial`, hypothesis
+`fileHyps32`: `fileMB32Valid`, both values below 256 GB in magnitude, in place of `fileMBValid`;
+from 256 GB + 44 MB on the statement is FALSE for the real reading: `accepted_file_float32_resource`).
+
+Trusted (abstract, as in the parts): strconv's float64 print∘parse `g` with `GOK g`, and
+`h = Sprintf("%g", roundUpTo(float32(·), 100))` for `threads` with `HOK h`; `canonFile g h` applies
+them to every float leaf / every `threads` value, `parseFileGH g h` = `UncheckedParse` as Go holds
+the result.  Tied on every run by harness/c09file.go: `fileHyps…` and `wfFile` are evaluated (driver
+op `filehyps`) on what the REAL parser returned for every accepted generated, respelled and
+near-miss file text; all hypotheses true but `wfFile` false (or the reverse) is the violation
+`C09:accepted-file-not-wf`; the sample text below goes through the real parser and formatter. -/
+section AcceptedFileTexts
+open Martian.FormatExp Martian.FormatDecl Martian.FormatCall2 Martian.FormatStage Martian.FormatPipe
+open Martian.FormatFile Martian.FormatCallText
+open Martian.Lexer (Bytes)
+
+/-- **Range of the file reader** (no exception hypothesis).  On tokens in the range of the
+tokenizer, whatever `pFile` returns satisfies `fileRaw`: every filetype is well formed; every
+struct has an identifier as id and at least one member, each with a well-formed type and an
+identifier as id (`structRaw`); every stage is in `stageRaw` and every pipeline in `wfPipelineRaw`
+(the ranges of sections AcceptedDeclTexts, AcceptedCallTexts); the call, if any, is in `wfCall2Raw`;
+and there is at least one declaration or the call.  Nothing is claimed about the include paths:
+they are whatever `unquote` returned. -/
+theorem range_file_reader (ts : List Tok) (f : File) (h : pFile ts = some f)
+    (hts : ∀ tok ∈ ts, tokOK tok = true) : fileRaw f = true := by
+  rw [← pFileR_exact] at h
+  exact pFileR_range _ ts f (List.all_eq_true.mpr hts) h
+
+/-- the same for the reader with ANY reader `rd` of `mem_gb` / `vmem_gb`, in particular the real one -/
+theorem range_file_reader_any (rd : Tok → Option Int) (ts : List Tok) (f : File) (h : pFileR rd ts = some f)
+    (hts : ∀ tok ∈ ts, tokOK tok = true) : fileRaw f = true :=
+  pFileR_range rd ts f (List.all_eq_true.mpr hts) h
+
+/-- **Every accepted source text** (any order of the declarations, any spelling, comments): what
+the reader returns is in the range — NO exception hypothesis. -/
+theorem parse_produces_fileRaw (src : Bytes) (f : File) (h : parseFile src = some f) : fileRaw f = true :=
+  parseFile_range src f h
+
+/-- definitional: `parseFile` is the parameterised file reader with the exact reading of `mem_gb` /
+`vmem_gb`; `parseFile32` is the same reader with the real one -/
+theorem parseFile_readers (src : Bytes) :
+    parseFile src = parseFileR Martian.FormatRes.readGBTok src ∧
+    parseFile32 src = parseFileR Martian.FormatRes.readGB32Tok src :=
+  ⟨parseFile_eq src, rfl⟩
+
+/-- … and so is what the reader with the real (float32) reading of `mem_gb` / `vmem_gb` returns -/
+theorem parse32_produces_fileRaw (src : Bytes) (f : File) (h : parseFile32 src = some f) : fileRaw f = true :=
+  parseFile32_range src f h
+
+/-- **The parser produces well-formed files** — partial.  The FULL statement is "for every source
+text `UncheckedParse` accepts, the file it returns satisfies `wfFile`" (then `parse_format_file`,
+`format_file_idem` apply to every accepted text).  It is FALSE for the code as it is; `hy` is the
+conjunction of exactly the recorded findings F6b, F26, F25, F40, F34 over all parts of the file
+(section header; negative witnesses below).  Everything else the parser can return is covered;
+`g`, `h`: what is trusted about strconv / `roundUpTo` (`GOK`, `HOK`). -/
+theorem parse_produces_wf_file_partial (g h : Bytes → Bytes) (hg : GOK g) (hh : HOK h) (src : Bytes) (f : File)
+    (hp : parseFileGH g h src = some f) (hy : fileHyps f = true) : wfFile f = true :=
+  parseFileGH_wf g h hg hh src f hp hy
+
+/-- **Formatting preserves every accepted file** — partial in the same sense (`hy` = F6b, F26, F25,
+F40, F34; without any conjunct the statement is FALSE for the code as it is).  For EVERY source
+text of a whole file the parser accepts — `@include` lines, the declarations of the four kinds in
+any order, the calls of every pipeline in any order, the top-level call, every token in any
+spelling, any white space, comments (dropped by the model reader: the statement is about the
+program; comments are covered by monitors only) —: the formatter's output is accepted; it denotes
+the same file up to `normFile` (the calls of every pipeline in `topoSort` order, call modifiers as
+sorted `using` bindings, integral floats as ints — nothing else changes; the regrouping of the
+declarations into includes, filetypes, structs, callables, call is not visible in the AST); the
+output is a fixed point of the formatter; and formatting what was re-read is accepted again with
+the same result.  `mem_gb` / `vmem_gb` are read exactly here; the real reading:
+`format_preserves_accepted_file32_partial`. -/
+theorem format_preserves_accepted_file_partial (g h : Bytes → Bytes) (hg : GOK g) (hh : HOK h)
+    (src : Bytes) (f : File) (hp : parseFileGH g h src = some f) (hy : fileHyps f = true) :
+    parseFileGH g h (fmtFile f) = some (normFile f) ∧ fmtFile (normFile f) = fmtFile f ∧
+      parseFileGH g h (fmtFile (normFile f)) = some (normFile f) :=
+  format_accepted_file g h hg hh src f hp hy
+
+/-- `fileHyps32` is stronger than `fileHyps` (256 GB < 2^53 GB) -/
+theorem fileHyps32_implies (f : File) (hy : fileHyps32 f = true) : fileHyps f = true := fileHyps_of_32 f hy
+
+/-- **The REAL parser produces well-formed files** — partial (`hy` = F6b, F26, F29 ⊇ F25, F40, F34):
+`parseFile32GH g h` reads `mem_gb` / `vmem_gb` of every stage through the float32 rounding of the
+literal, as `UncheckedParse` does. -/
+theorem parse_produces_wf_file32_partial (g h : Bytes → Bytes) (hg : GOK g) (hh : HOK h) (src : Bytes)
+    (f : File) (hp : parseFile32GH g h src = some f) (hy : fileHyps32 f = true) : wfFile f = true :=
+  parseFile32GH_wf g h hg hh src f hp hy
+
+/-- **Formatting preserves every file text the REAL parser accepts** — partial: `hy` = F6b, F26, F29
+(`mem_gb`, `vmem_gb` of every stage below 256 GB in magnitude; without it the statement is FALSE
+for the code as it is: `accepted_file_float32_resource`), F40, F34. -/
+theorem format_preserves_accepted_file32_partial (g h : Bytes → Bytes) (hg : GOK g) (hh : HOK h)
+    (src : Bytes) (f : File) (hp : parseFile32GH g h src = some f) (hy : fileHyps32 f = true) :
+    parseFile32GH g h (fmtFile f) = some (normFile f) ∧ fmtFile (normFile f) = fmtFile f ∧
+      parseFile32GH g h (fmtFile (normFile f)) = some (normFile f) :=
+  format_accepted_file32 g h hg hh src f hp hy
+
+/-! ### non-vacuity: a concrete SOURCE TEXT of a whole file in non-canonical spelling -/
+
+/-- `Martian.FormatFile.sampleFileText` (an include; a pipeline before the filetype it uses, its
+calls `C, B, A` out of dependency order, keyword modifiers, `1e3`, `007`, duplicate map keys; a
+stage with `split using (`, the resources in source order with `memgb`, a repeated key, `1e0`,
+`0.50`; a struct after the stage; the call; comments, tabs, blank lines) is accepted; the file Go
+holds satisfies every hypothesis (`fileHyps`, `fileHyps32`) and `wfFile`; the callables are read in
+source order with the calls of `P` as written and come out in dependency order; and the formatted
+text is `sampleFileCanon`, which differs from the source. -/
+example :
+    (parseFileGH gSample hSample sampleFileText).map (fun f =>
+      fileHyps f && fileHyps32 f && wfFile f && f.includes == [ascii "a.mro"] &&
+      f.callables.map callableCalls == [(ascii "P", [ascii "C", ascii "B", ascii "A"]), (ascii "S", [])] &&
+      (normFile f).callables.map callableCalls ==
+        [(ascii "P", [ascii "A", ascii "B", ascii "C"]), (ascii "S", [])] &&
+      fmtFile f == sampleFileCanon && !(sampleFileCanon == sampleFileText)) = some true := by
+  set_option maxRecDepth 1000000 in decide +kernel
+
+/-- non-vacuity for the real reading: `sampleFileText` is accepted by the reader with the float32
+reading with the same resources (`mem_gb = 1e0` is 1024 MB) and satisfies `fileHyps32`;
+`mem_gb = 0.5000000001` is 512 MB for the real parser and 513 MB for the exact reader -/
+example :
+    (parseFile32GH gSample hSample sampleFileText).map (fun f => fileHyps32 f && wfFile f && fileMems f == [some 1024]) =
+      some true ∧
+    (parseFile32 (ascii "filetype a;\nstage S(src py \"x\",) using (mem_gb = 0.5000000001,)")).map fileMems =
+      some [some 512] ∧
+    (parseFile (ascii "filetype a;\nstage S(src py \"x\",) using (mem_gb = 0.5000000001,)")).map fileMems =
+      some [some 513] := by
+  set_option maxRecDepth 1000000 in decide +kernel
+
+/-! ### negative witnesses on ACCEPTED FILE TEXTS: each conjunct of `fileHyps` excludes something the parser produces -/
+
+/-- Negative witness F6b in an INCLUDE PATH: `@include "\xff"` is accepted, the path is the single
+byte FF (`fileStrsValid` fails, every other conjunct holds, `wfFile` fails); the formatter writes
+`@include "\ufffd"`, which reads back as the path U+FFFD — another file. -/
+theorem accepted_file_invalid_utf8_include :
+    (parseFileGH gSample hSample (ascii "@include \"\\xff\"\nfiletype a;")).map (fun f =>
+      !fileStrsValid f && fileNoNegZero f && fileMBValid f && fileModsDistinct f && fileCallsDistinct f &&
+        !wfFile f && f.includes == [[0xFF]] && fmtFile f == ascii "@include \"\\ufffd\"\n\nfiletype a;\n" &&
+        ((parseFileGH gSample hSample (fmtFile f)).map (·.includes) == some [[0xEF, 0xBF, 0xBD]])) = some true := by
+  set_option maxRecDepth 100000 in decide +kernel
+
+/-- Negative witness F34 in a FILE: a pipeline with two calls of id `X` after a filetype.  The text
+is accepted, only `fileCallsDistinct` fails; the formatter moves `X` behind `C`, and formatting
+the output moves `C` again: the output is not a fixed point. -/
+theorem accepted_file_duplicate_call_ids :
+    (parseFileGH gSample hSample (ascii
+      "filetype a;\npipeline P(in int a, out int r,) { call X(a = B.o,) call Y as X() call C(c = X.o,) call B() return (r = C.o,) }")).map
+      (fun f => fileStrsValid f && fileNoNegZero f && fileMBValid f && fileModsDistinct f &&
+        !fileCallsDistinct f && !wfFile f &&
+        f.callables.map callableCalls == [([0x50], [[0x58], [0x59], [0x43], [0x42]])] &&
+        (normFile f).callables.map callableCalls == [([0x50], [[0x59], [0x43], [0x42], [0x58]])] &&
+        (normFile (normFile f)).callables.map callableCalls == [([0x50], [[0x59], [0x42], [0x58], [0x43]])]) =
+      some true := by
+  set_option maxRecDepth 1000000 in decide +kernel
+
+/-- Negative witness F25 in a FILE: `mem_gb = 9007199254740992` (2^53 GB) in a stage followed by a
+call.  Accepted, only `fileMBValid` fails (and `wfFile`); the real `formatGB` (`fmtGBgo`: `int64`
+overflow) prints `-9007199254740992` for it, not what the model printer prints. -/
+theorem accepted_file_huge_resource :
+    (parseFileGH gSample hSample (ascii "stage S(src py \"x\",) using (mem_gb = 9007199254740992,)\ncall S()")).map
+      (fun f => fileStrsValid f && fileNoNegZero f && !fileMBValid f && fileModsDistinct f &&
+        fileCallsDistinct f && !wfFile f && fileMems f == [some (2 ^ 63 : Int)]) = some true ∧
+    Martian.FormatRes.fmtGBgo (2 ^ 63) ≠ Martian.FormatRes.fmtGB (2 ^ 63) := by
+  set_option maxRecDepth 100000 in decide +kernel
+
+/-- Negative witness F29 in a FILE, real reading: `mem_gb = 256.04296875` (256 GB + 44 MB) is read
+as 262188 MB; `fileHyps` and `wfFile` hold, `fileHyps32` fails; the formatter prints `256.042`,
+which the real reader reads as 262187 MB — the output does not denote the same file (the exact
+reader reads 262188 back). -/
+theorem accepted_file_float32_resource :
+    (parseFile32GH gSample hSample (ascii "filetype a;\nstage S(src py \"x\",) using (mem_gb = 256.04296875,)")).map
+      (fun f => fileHyps f && !fileHyps32 f && wfFile f && fileMems f == [some 262188] &&
+        ((parseFile32GH gSample hSample (fmtFile f)).map fileMems == some [some 262187]) &&
+        ((parseFileGH gSample hSample (fmtFile f)).map fileMems == some [some 262188])) = some true := by
+  set_option maxRecDepth 100000 in decide +kernel
+
+/-- Negative witnesses F26 and F40 in a FILE: `call X(a = -0.0,)` after a filetype (only
+`fileNoNegZero` fails; printed `a = -0`, which reads back as the integer 0: not a fixed point) and
+`call X() using (local = true, local = false,)` (only `fileModsDistinct` fails; in the range
+`fileRaw`, outside `wfFile`). -/
+theorem accepted_file_negative_zero_duplicate_modifier :
+    (parseFileGH gSample hSample (ascii "filetype a;\ncall X(a = -0.0,)")).map
+      (fun f => !fileNoNegZero f && fileStrsValid f && fileMBValid f && fileModsDistinct f &&
+        fileCallsDistinct f && !wfFile f && fmtFile f == ascii "filetype a;\n\ncall X(\n    a = -0,\n)\n" &&
+        ((parseFileGH gSample hSample (fmtFile f)).map fmtFile ==
+          some (ascii "filetype a;\n\ncall X(\n    a = 0,\n)\n"))) = some true ∧
+    (parseFileGH gSample hSample (ascii "filetype a;\ncall X() using (local = true, local = false,)")).map
+      (fun f => !fileModsDistinct f && fileStrsValid f && fileNoNegZero f && fileMBValid f &&
+        fileCallsDistinct f && !wfFile f && fileRaw f) = some true := by
+  set_option maxRecDepth 100000 in decide +kernel
+
+end AcceptedFileTexts
 
 end Props.C09
